@@ -4,7 +4,7 @@
    Run in this directory:  coqc -Q ../coq ACV Extract.v   (writes model.ml / model.mli here). *)
 From Coq Require Extraction.
 From Coq Require Import ExtrOcamlBasic ExtrOcamlString.
-From ACV Require Import Model.Cli Model.Peg Model.PathGrammar Model.Graph Model.PathSem Model.Dnf Model.Rules Model.Report Model.Pipeline.
+From ACV Require Import Model.Cli Model.Peg Model.PathGrammar Model.Graph Model.PathSem Model.Dnf Model.Rules Model.Report Model.Pipeline Model.Escape.
 Extraction Language OCaml.
 Extraction "model.ml" Cli.run Cli.run_history Cli.last_ok Cli.spec_run Cli.spec_history
   PathGrammar.parse_path_with PathGrammar.default_fuel
@@ -12,4 +12,5 @@ Extraction "model.ml" Cli.run Cli.run_history Cli.last_ok Cli.spec_run Cli.spec_
   PathSem.spec_strings PathSem.spec_count PathSem.spec_nodes
   Rules.model_reported Rules.lsat Rules.csat Rules.compl_ok Rules.disp_fuel Rules.wf_form Graph.targets
   Report.build_report Report.spec_report Report.ids Report.wf_et Report.report_ids
-  Pipeline.run_entry Pipeline.as_coded Pipeline.spec_trace.
+  Pipeline.run_entry Pipeline.as_coded Pipeline.spec_trace
+  Escape.display Escape.rendered Escape.paste_message Escape.message_variables Escape.paste_name Escape.package_name.
